@@ -109,11 +109,11 @@ def build_harness(name, src, cfg="rel", hooks=False, shim=False, defs=(), libs=(
     now = time.time()
     for f in os.listdir(d):     # prune binaries of other trees that have not been used for a while
         fp = os.path.join(d, f)
-        if f.startswith(name + ".") and now - os.path.getmtime(fp) > 3 * 3600:
-            try:
+        try:      # (another check may be pruning the same directory right now)
+            if f.startswith(name + ".") and now - os.path.getmtime(fp) > 3 * 3600:
                 os.remove(fp)
-            except OSError:
-                pass
+        except OSError:
+            pass
     srcs = [os.path.join(HARNESS, s) for s in (src,) + tuple(extra_src)]
     cmd = [cc] + flags + srcs + ["-o", exe, "-lpthread"] + list(libs)
     t0 = time.time()
